@@ -162,7 +162,9 @@ EXTRA5 = {
  'C04': 'Round 5 (FR.Props.C04k, 47 theorems, after fix F37): the queue invariant TxWf (no (P)SUBSCRIBE/(P)UNSUBSCRIBE, no EXEC/DISCARD/MULTI/WATCH, only known names in any transaction queue) holds in every reachable state; '
         'processCommand_never_crashes / unconditional_no_crash / event_never_crashes / reachable_conn_alive: no request of any history kills a connection or raises anything but the emulated ConnectionError - without exclusions since script commands queued inside MULTI are modelled (FR.Props.C19m); '
         'reply counts: exactly one reply for unknown / wrong-arity / queued / refused / executed commands, one per argument for (P)SUBSCRIBE, max(1, subscriptions) for an empty (P)UNSUBSCRIBE, 0 or 1 for a blocking pop; '
-        'subscribe_in_multi_refused, exec_after_refusal_aborts; the chunking theorems without aliveness hypotheses on reachable states. Bridge: notInMulti_eq (the refused list is extracted from _process_command). ',
+        'subscribe_in_multi_refused, exec_after_refusal_aborts; the chunking theorems without aliveness hypotheses on reachable states. Bridge: notInMulti_eq (the refused list is extracted from _process_command). '
+        'Reply ORDER (FR.Props.C04o, 34 theorems): processCommand / drain / sendall / every wake-up, time-out and event only ever PREPEND to the output (processCommand_out_suffix …, unconditional); replies_in_request_order: for a pipelined write of n requests that do not park, the replies of the connection are the per-request '
+        'own-reply lists concatenated in request order; n_requests_n_replies: n plain requests (anything but pub/sub commands, parking pops and the empty request) get exactly n replies, the i-th being the answer to the i-th request computed in the state after the first i-1 (pub/sub pushes to the own connection are accounted for exactly). ',
  'C05': 'Round 5: refused_in_multi(_eq) - the four pub/sub commands inside MULTI are answered with the fixed error, poison the transaction and queue nothing; db matrix also in C05 (fresh databases created inside EXEC carry the clock). ',
  'C08': 'Round 5, tie (a) for the modelling decision "an error carries no state": tools/gen_purity.py runs a forward abstract interpretation over the AST of all 139 command bodies on every check (no raise / raising call can execute after the body changed a CommandItem, a stored container, '
         'the database, the server or the connection; loops twice, try/handler states, lazily consumed generators) and Bridge/Purity proves purity_bodies_validate_first (empty for every command except EXEC and EVAL, whose errors are specified to follow a change) and purity_covers_all_commands. ',
